@@ -67,7 +67,7 @@ TEMPLATES = {
     'fill_other_injects_then_autofill': ['new', 'fill', 'new#1', 'autofill#1', 'sign#1', 'inject#1', 'autofill', 'sign', 'inject'],
     'inspect_other_fails_then_send': ['new', 'autofill', 'new#1', 'autofill#1', 'sign#1', 'inject#1!reject', 'send'],
 }
-FAULT_KINDS = ['transient', 'preval', 'latency', 'transient_cap']
+FAULT_KINDS = ['transient', 'preval', 'latency', 'transient_cap', 'http_status']
 
 
 def gen_contents(rng, n):
@@ -115,6 +115,8 @@ def gen(seed, tier):
     enabled_templates = [t for t in names if rng.random() < 0.5] or [rng.choice(names)]
     p_env = rng.choice([0.0, 0.2, 0.5])
     nlife = rng.choice([1, 2, 2, 3, 4, 6]) if tier == 'thorough' else rng.choice([1, 2, 2, 3, 4])
+    if rng.random() < (0.15 if tier == 'thorough' else 0.03):
+        nlife = rng.choice([8, 12])  # a long run-up: many lifecycles on one client and one node
     if key == 'tz4':
         nlife = min(nlife, 2)
     steps = []
@@ -129,6 +131,10 @@ def gen(seed, tier):
             elif c < 0.85:
                 steps.append({'op': 'noise', 'acct': rng.randint(0, 2), 'n': rng.choice([1, 2]),
                               'where': rng.choice(['validated', 'validated', 'refused', 'branch_delayed', 'unprocessed'])})
+            elif c < 0.93:
+                # a pending manager operation of the account made by another wallet, of a kind pytezos cannot build itself
+                steps.append({'op': 'noise', 'own_foreign': True, 'n': rng.choice([1, 1, 2]),
+                              'kind': rng.choice(['increase_paid_storage', 'update_consensus_key', 'set_deposits_limit', 'smart_rollup_originate'])})
             else:
                 # an operation of the account itself that is listed by the node but will never take a counter
                 steps.append({'op': 'noise', 'own_stale': True, 'n': rng.choice([1, 2]), 'where': rng.choice(['outdated', 'outdated', 'refused', 'branch_refused', 'branch_delayed'])})
@@ -179,6 +185,11 @@ def gen(seed, tier):
                     d = {'f': 'transient', 'n': rng.randint(1, 5), 'status': rng.choice([500, 502, 503])}
                 elif fk == 'transient_cap':
                     d = {'f': 'transient', 'n': 6, 'status': 503}
+                elif fk == 'http_status':
+                    # a gateway that hides this RPC (only meaningful on reads; the injection POST keeps its own fault kinds)
+                    d = {'f': 'status', 'code': rng.choice([404, 404, 401, 403])}
+                    if where == 'inj':
+                        where = rng.choice(['pend', 'pend', 'ctr', 'hdr'])
                 elif fk == 'preval':
                     d = {'f': 'preval', 'n': rng.randint(1, 5)}
                 else:
@@ -216,6 +227,7 @@ class C25World(cs.World):
             node = self.node
             node.counter_read_epoch = {}
             node.race_tainted = {}
+            node.last_counter_served = {}
             self.step_faults = dict(self.step_faults)
             before = node.head['level']
             g0 = self.groups.get(st.get('g'))
@@ -227,6 +239,7 @@ class C25World(cs.World):
             if g0 is not None and st['op'] == 'send':
                 g0['n_fill'], g0['p_fill'] = n_now, p_now
                 g0['acc_at_fill'] = acc_now
+                g0['_send_live'] = True
             ok = False
             try:
                 orig(st)
@@ -237,9 +250,12 @@ class C25World(cs.World):
                 g = self.groups.get(st.get('g'))
                 if g is not None and st['op'] in ('fill', 'autofill') and ok:
                     g['tainted'] = bool(node.race_tainted.get(self.pkh))
-                    g['acc_at_fill'] = acc_now
+                    if st['op'] == 'autofill' or reassigns:
+                        # a fill of an already filled group leaves its counters alone: it does not move the reference point
+                        g['acc_at_fill'] = acc_now
                     if reassigns:
-                        g['n_fill'], g['p_fill'] = n_now, p_now
+                        # the facts at the moment the node served the counter (a block may land while the call is in flight)
+                        g['n_fill'], g['p_fill'] = node.last_counter_served.get(self.pkh, (n_now, p_now))
 
         self._do = do
         super().run()
